@@ -436,6 +436,70 @@ def gen_coll(tier, rng):
     return cases
 
 
+# ---- collections: valid rules + every mutant of a filter / correlation rule / rule, every entry point ----
+def same_ls_rule(name, ls):
+    return {"title": "Valid " + name, "name": name, "logsource": copy.deepcopy(ls) if isinstance(ls, dict) and ls else dict(LS),
+            "detection": {"sel": {"Image": "a.exe"}, "condition": "sel"}}
+
+
+OTHER_LS = {"category": "other_category", "product": "other_product", "service": "other_service"}
+VIAS = [("dicts", False, True), ("dicts", True, True), ("dicts", False, False), ("dicts", True, False),
+        ("yaml", False, True), ("yaml", True, False), ("merge", False, True), ("merge", False, False), ("ruleset", False, True),
+        ("ruleset", False, False)]        # (entry point, collect_filters, resolve_references)
+
+
+def yaml_safe(v):
+    """can be written by yaml.safe_dump and read back as the same value"""
+    if isinstance(v, float): return not (math.isnan(v))
+    if isinstance(v, int) and not isinstance(v, bool): return abs(v) < 10 ** 300
+    if isinstance(v, list): return all(yaml_safe(x) for x in v)
+    if isinstance(v, dict): return all(yaml_safe(k) and yaml_safe(x) and not isinstance(k, float) for k, x in v.items())
+    if isinstance(v, str): return all(c.isprintable() or c in "\n\t" for c in v) and not v.startswith(("\ufeff",))
+    return True
+
+
+def gen_collx(tier, rng):
+    full = tier != "quick"
+    cases = []
+
+    def add(docs, split, vias):
+        for via, cf, rr in vias:
+            if via in ("yaml", "ruleset") and not yaml_safe(docs): continue
+            cases.append({"kind": "collx", "doc": to_tag(docs), "via": via, "cf": cf, "rr": rr, "split": split, "lib": False})
+
+    bases = [("filter", d) for d in FILTERS] + [("corr", d) for d in CORRS] + [("rule", d) for d in RULES[:8]]
+    for kind, d in bases:
+        ls = d.get("logsource") if kind != "corr" else LS
+        valid = [same_ls_rule("r1", ls), dict(same_ls_rule("r2", OTHER_LS), id=U1), same_ls_rule("a", ls), same_ls_rule("b", OTHER_LS),
+                 same_ls_rule("c", ls)]
+        add(valid[:2] + [d], 2, VIAS)                      # the well-formed collection itself
+        add([d] + valid[:2], 1, VIAS)
+        prio, ms = mutants(d, rng, False, split=True)
+        ms = [m for m in prio + ms if isinstance(m, dict)] + all_wrong(d, rng, 2)
+        # the main sections mutated in every way stay in; the rest is sampled
+        key = {"filter": "filter", "corr": "correlation", "rule": "detection"}[kind]
+        main = [m for m in ms if m.get(key) != d.get(key) or m.get("logsource") != d.get("logsource")]
+        rest = [m for m in ms if not (m.get(key) != d.get(key) or m.get("logsource") != d.get("logsource"))]
+        n_main, n_rest, n_via = (150, 40, 3) if full else (14 if kind == "filter" else 5, 2, 2)
+        chosen = rng.sample(main, min(len(main), n_main)) + rng.sample(rest, min(len(rest), n_rest))
+        for m in chosen:
+            k = rng.randint(2, 5)
+            docs = valid[:k]
+            pos = rng.randint(0, len(docs))
+            docs = docs[:pos] + [m] + docs[pos:]
+            vias = [VIAS[0]] + rng.sample(VIAS[1:], n_via - 1)     # default arguments always
+            add(docs, rng.randint(1, len(docs) - 1), vias)
+    # two malformed documents, malformed filter + malformed rule with the same log source
+    for _ in range(400 if full else 30):
+        (k1, d1), (k2, d2) = rng.choice(bases), rng.choice(bases)
+        m1 = rng.choice([m for m in mutants(d1, rng, False) if isinstance(m, dict)])
+        m2 = rng.choice([m for m in mutants(d2, rng, False) if isinstance(m, dict)])
+        docs = [same_ls_rule("r1", LS), m1, m2, same_ls_rule("r2", OTHER_LS)]
+        rng.shuffle(docs)
+        add(docs, rng.randint(1, 3), [VIAS[0], rng.choice(VIAS[1:])])
+    return cases
+
+
 # ---- text level ----
 def yaml_dump(v, ind=0):
     """tiny emitter for the value shapes used here (block style), so that duplicates can be injected"""
@@ -499,7 +563,8 @@ def known_doc(kind, doc_t, r):
     strict, collect = r["strict"], r["collect"]
     if kind in ("rule", "corr", "filter") and doc_t[0] != "m":
         return "C07-nonmap-document"
-    if kind == "corr" and corr_nonstring_ref(doc_t) and "crash" in (strict[0], collect[0]):
+    if kind == "corr" and corr_nonstring_ref(doc_t) and "crash" in (strict[0], collect[0]) \
+            and all(o[0] != "crash" or o[1] == "TypeError" for o in (strict, collect)):
         return "C07-corr-nonstring-rule-reference"
     if kind == "corr" and collect[0] == "sigma" and collect[1] in CORR_RAISE and strict[0] == "sigma":
         return "C07-corr-collect-raises"
@@ -520,7 +585,11 @@ def known_coll(c, r):
         if kind == "rule" and tag_get(m, "action") is not None: kind = "rule"
         k = known_doc(kind, m, r)
         if k: return k
-    if c["kind"] == "colldef" and r["collect"][0] == "sigma" and r["collect"][1] in ("SigmaRuleNotFoundError", "SigmaTypeError"):
+    # only SIGMA errors escaping from filter application / reference resolution belong to this finding: any other
+    # exception class is a violation
+    post = c["kind"] == "colldef" or (c["kind"] == "collx" and (not c["cf"] or c["rr"] or c["via"] in ("merge", "ruleset")))
+    if post and r["collect"][0] == "sigma" and r["collect"][1] in ("SigmaRuleNotFoundError", "SigmaTypeError") \
+            and r["strict"][0] != "crash":
         return "C07-collection-postprocessing-raises"
     return None
 
@@ -545,6 +614,24 @@ def load_to_coq(c, r):
     exts = clist(f"({cstr(s)}, {copt(clist(cstr(x) for x in e) if e is not None else None)})" for s, e in r["exts"])
     feq = cbool(r["first_eq"] is not False)
     return f"(mkcase {KINDS[c['kind']]} {facts} {exts} {tag_coq(c['doc'])} {out_coq(r['strict'])} {out_coq(r['collect'])} {feq})"
+
+
+def coll_to_coq(c, r):
+    """collections: judged against Model/Collection.v when loaded through from_dicts, property only otherwise"""
+    if "exc" in r: return None
+    if r["strict"][0] == "yaml" and r["collect"][0] == "yaml": return None
+    t = c["doc"]
+    if c["kind"] == "coll": modelled, cf, rr = True, True, False
+    elif c["kind"] == "colldef": modelled, cf, rr = True, False, True
+    else: modelled, cf, rr = c["via"] == "dicts", c["cf"], c["rr"]
+    if t[0] != "l": return None
+    if not modelled:
+        return f"(mkcoll false [] [] [] [] {cbool(cf)} {cbool(rr)} {out_coq(r['strict'])} {out_coq(r['collect'])})"
+    facts = clist(f"({cstr(s)}, {b})" for s, b in r["facts"])
+    ukeys = clist(f"({cstr(s)}, {b})" for s, b in r["ukeys"])
+    exts = clist(f"({cstr(s)}, {copt(clist(cstr(x) for x in e))})" for s, e in r["exts"])
+    docs = clist(tag_coq(x) for x in t[1])
+    return f"(mkcoll true {facts} {ukeys} {exts} {docs} {cbool(cf)} {cbool(rr)} {out_coq(r['strict'])} {out_coq(r['collect'])})"
 
 
 def prop_to_coq(c, r):
@@ -598,14 +685,17 @@ def mutate_case(c, rng):
     return out
 
 
-REQ = ["Base.Chars", "Base.Outcome", "Model.Yaml", "Model.Loader", "Spec.LoaderSpec", "Run.C07run"]
+REQ = ["Base.Chars", "Base.Outcome", "Model.Yaml", "Model.Loader", "Model.CollLoader", "Spec.LoaderSpec", "Run.C07run"]
 PROPERTY = Property(
     pid="C07", props_file="Props/C07.v",
     suites=[
         Suite("load", gen_load, "run_load", REQ, "judge_load", load_to_coq, known=known_load, py_oracle=harness_oracle,
               mutate=mutate_case, stratum=stratum, shard=500),
-        Suite("coll", gen_coll, "run_load", REQ, "judge_prop", prop_to_coq, known=known_coll, py_oracle=harness_oracle,
+        Suite("coll", gen_coll, "run_load", REQ, "judge_coll", coll_to_coq, known=known_coll, py_oracle=harness_oracle,
               mutate=mutate_case, stratum=stratum, shard=800),
+        Suite("collx", gen_collx, "run_collx", REQ, "judge_coll", coll_to_coq, known=known_coll, py_oracle=harness_oracle,
+              stratum=lambda c, r: "runner-error" if "exc" in r else f"{c['via']}:cf={c['cf']}:rr={c['rr']}:{r['strict'][0]}/{r['collect'][0]}",
+              shard=1500),
         Suite("yaml", gen_yaml, "run_yaml", REQ, "judge_prop", prop_to_coq, known=known_yaml, py_oracle=harness_oracle,
               stratum=stratum, shard=800),
     ],
